@@ -1,5 +1,6 @@
 import Model.Proto
 import Model.Sort
+import Model.SortBytes
 /-! Driver for stream `sort` (C16): reads the same case lines as harness/c16.cc, loads the same
 record file, runs the model (`sortSpec`, and `codeSort` = the code's own merge plan when
 `detail=1`) and prints the canonical `M …` line; `offsets` lines run the Offsets model. -/
@@ -112,6 +113,50 @@ def logsStr (logs : List (List (Nat × Nat))) : String := Id.run do
     g := g + 1
   return s!"logs={logs.length}:{h} logshow={shown}"
 
+/-- run-length string "size*count,…" of the output block sizes in bytes, as the harness prints it -/
+def rleStr (xs : List Nat) : String :=
+  let rec go : List Nat → List (Nat × Nat) → List (Nat × Nat)
+    | [], acc => acc.reverse
+    | x :: rest, [] => go rest [(x, 1)]
+    | x :: rest, (y, c) :: acc => if x = y then go rest ((y, c + 1) :: acc) else go rest ((x, 1) :: (y, c) :: acc)
+  if xs.isEmpty then "none" else ",".intercalate ((go xs []).map fun p => s!"{p.1}*{p.2}")
+
+/-- the blocks the consumer of the sorted output sees -/
+def expectedOutBlocks (lt : Rec → Rec → Bool) (combf : Rec → Rec → Option Rec) (cfg : Cfg) (lazyMem : Nat)
+    (blocks : List (List Rec)) (nout cap rs : Nat) : String :=
+  match afterBlockSorter lt blocks with
+  | none => "?"
+  | some runs =>
+    match codeMerge lt combf (fun _ _ _ => 0) cfg lazyMem runs with
+    | .error _ => "?"
+    | .ok m => rleStr ((outputBlocks cap m.runs.length nout).map (· * rs))
+
+/-- sizes of the write() calls that spill the sorted blocks: one per non-empty block -/
+def spillStr (counts : List Nat) (rs : Nat) : String :=
+  let sizes := (counts.filter (· ≠ 0)).map (· * rs)
+  let h := sizes.foldl (fun h v => fnvNat h v 8) fnvOffset
+  s!"spill={sizes.length}:{h}"
+
+/-- sizes of all write() calls to the data temps: the spill (one per non-empty block) and, per pass,
+the pass chain's blocks of `buffer_size` bytes plus the last partial one -/
+def dwritesStr (lt : Rec → Rec → Bool) (combf : Rec → Rec → Option Rec) (cfg : Cfg) (lazyMem : Nat)
+    (blocks : List (List Rec)) (counts : List Nat) (rs : Nat) : String :=
+  let stage0 := (counts.filter (· ≠ 0)).map (· * rs)
+  let hist : List (List Nat) :=
+    match afterBlockSorter lt blocks with
+    | none => []
+    | some runs =>
+      if runs.length ≤ 1 then []
+      else match codeMergeLoopT lt combf (fun _ _ _ => 0) cfg lazyMem runs.length runs 0 [] with
+        | .error _ => []
+        | .ok (_, _, h) => h
+  let passWrites := hist.map fun lens =>
+    let t := lens.foldl (· + ·) 0 * rs
+    List.replicate (t / cfg.bufferSize) cfg.bufferSize ++ (if t % cfg.bufferSize = 0 then [] else [t % cfg.bufferSize])
+  let gens := (if stage0.isEmpty then [] else [stage0]) ++ passWrites.filter (fun g => !g.isEmpty)
+  let h := gens.foldl (fun h g => fnvByte (g.foldl (fun h v => fnvNat h v 8) h) 0xAA) fnvOffset
+  s!"dwrites={gens.length}:{h}"
+
 def parseCounts (s : String) : Option (List Nat) :=
   (s.splitOn ",").filter (· ≠ "") |>.mapM (·.toNat?)
 
@@ -162,7 +207,15 @@ def runCase (args : List String) : IO String := do
               let agree := ho.n == hs.n && ho.keyhash == hs.keyhash && ho.mset == hs.mset
               let mretS := if mode = "blocking" then "-" else toString mret
               let logs := expectedLogs lt combf cfg lazyMem blocks counts rs
-              return s!"M {ho.str} passes={passes} mret={mretS} lazy={lazyMem} spec={if agree then "same" else "DIFF"} {logsStr logs}"
+              let ocbc := if cbc = 1 then 2 else cbc
+              let cap := if mode = "blocking" then blockSize / rs else (max cmem (rs * ocbc)) / (ocbc * rs)
+              let ob := if mode = "steal" then rleStr ((preadBlocks cap ho.n).map (· * rs))
+                        else expectedOutBlocks lt combf cfg lazyMem blocks ho.n cap rs
+              let lstr := logsStr logs
+              let (l1, l2) := match lstr.splitOn " logshow=" with
+                | [a, b] => (a, b)
+                | _ => (lstr, "")
+              return s!"M {ho.str} passes={passes} mret={mretS} lazy={lazyMem} spec={if agree then "same" else "DIFF"} {l1} {spillStr counts rs} {dwritesStr lt combf cfg lazyMem blocks counts rs} oblocks={ob} logshow={l2}"
           else
             return s!"M {hs.str} passes=- mret=- lazy={lazyMem} spec=same"
     | _, _, _, _, _, _, _, _ => return "M bad-op"
@@ -185,6 +238,30 @@ def runOffsets (arg : String) : String :=
         let total := (sizes.foldl (· + ·) 0)
         s!"remaining={r.blockCount} sizes={",".intercalate (sizes.map toString)} offsets={",".intercalate (offs.map toString)} total={total}"
 
+/-- `sizedswap <size> <hex> <i> <j>`: the byte-wise model of `swap(SizedProxy, SizedProxy)` -/
+def runSizedSwap (args : List String) : String :=
+  match args with
+  | [sz, hex, i, j] =>
+    match sz.toNat?, hexToBytes hex, i.toNat?, j.toNat? with
+    | some sz, some bs, some i, some j =>
+      if sz = 0 ∨ (i + 1) * sz > bs.length ∨ (j + 1) * sz > bs.length then "bad-op"
+      else bytesToHex (sizedSwap sz bs i j)
+    | _, _, _, _ => "bad-op"
+  | _ => "bad-op"
+
+/-- `sizedsort <size> <hex>`: the block sort at byte level with memcmp order -/
+def runSizedSort (args : List String) : String :=
+  match args with
+  | [sz, hex] =>
+    match sz.toNat?, hexToBytes (if hex = "-" then "" else hex) with
+    | some sz, some bs =>
+      if sz = 0 ∨ bs.length % sz ≠ 0 then "bad-op"
+      else
+        let out := sizedSortBytes sz lexLt bs
+        if out.isEmpty then "-" else bytesToHex out
+    | _, _ => "bad-op"
+  | _ => "bad-op"
+
 partial def mainLoop (h : IO.FS.Stream) : IO Unit := do
   let line ← h.getLine
   if line.isEmpty then return ()
@@ -192,6 +269,8 @@ partial def mainLoop (h : IO.FS.Stream) : IO Unit := do
   | "case" :: args => IO.println (← runCase args)
   | ["offsets", arg] => IO.println (runOffsets arg)
   | ["offsets"] => IO.println (runOffsets "")
+  | "sizedswap" :: args => IO.println (runSizedSwap args)
+  | "sizedsort" :: args => IO.println (runSizedSort args)
   | _ => IO.println "bad-op"
   (← IO.getStdout).flush
   mainLoop h
